@@ -84,6 +84,8 @@ int main(int argc, char **argv) {
     R.nworkers = (int) A.geti("workers", 16);
     if (A.has("deadline-s")) R.deadline_abs = vr::now_s() + A.getd("deadline-s", 0);
 
+    vv::out_kind() = (int) A.geti("outiter", 0);
+    vv::wmap_kind() = (int) A.geti("wmap", 0);        // 1: exterior weight map, decoy values in the interior property     // 1: positional output iterator into a pre-sized vector
     if (A.has("replay-case")) {
         auto pc = vg::parse_case(A.get("replay-case"));
         cfg.variants = {vv::variant_by_short(pc.get("variant", "signed"))};
@@ -119,8 +121,6 @@ int main(int argc, char **argv) {
     int orient_mode = (int) A.geti("orient", 0);
     vg::plus_heavy_k2() = A.has("plus-heavy-k2");
     vg::edge_order_mode() = (int) A.geti("eorder", 0);
-    vv::out_kind() = (int) A.geti("outiter", 0);
-    vv::wmap_kind() = (int) A.geti("wmap", 0);        // 1: exterior weight map, decoy values in the interior property     // 1: positional output iterator into a pre-sized vector
     auto unit_graph0 = [&](uint64_t u) -> vg::EdgeList {
         // seed only rotates the enumeration order
         uint64_t uu = ((u / wchunks) + seed) % ngraphs;
